@@ -30,6 +30,9 @@ var vParamSets = []ParametersLiteral{
 	{LogN: 4, Q: []uint64{97, 12289}, P: []uint64{257}, NTTFlag: false},
 	{LogN: 4, Q: []uint64{97, 12289, 193, 65537}, P: []uint64{257, 769}, NTTFlag: true},
 	{LogN: 4, Q: []uint64{257, 65537}, NTTFlag: true}, // primes just above a power of two
+	// 61-bit Q primes (overflow margin 8) with 59-bit P primes (margin 32): the lazy accumulators of the gadget
+	// product must be reduced every 4 digits modulo Q and every 16 modulo P
+	{LogN: 4, Q: []uint64{2305843009213616129, 2305843009213554689, 2305843009213501441, 2305843009213489153, 2305843009213444097, 2305843009213317121, 2305843009213243393, 2305843009213173761}, P: []uint64{576460752303419393, 576460752303415297}, NTTFlag: true},
 }
 
 // vNativeParamSets mirror the shapes of vParamSets with realistic prime sizes: the native replay of a harness runs on
@@ -42,6 +45,9 @@ var vNativeParamSets = []ParametersLiteral{
 	{LogN: 4, LogQ: []int{45, 35}, LogP: []int{40}, NTTFlag: false},
 	{LogN: 4, LogQ: []int{45, 35, 35, 35}, LogP: []int{40, 40}, NTTFlag: true},
 	{LogN: 4, Q: []uint64{1429365117217, 49719739886171393}, NTTFlag: true}, // primes in (2^k, 2^k*sqrt2): log2 rounds down
+	// 61-bit Q primes (overflow margin 8) with 59-bit P primes (margin 32): the lazy accumulators of the gadget
+	// product must be reduced every 4 digits modulo Q and every 16 modulo P
+	{LogN: 8, Q: []uint64{2305843009213616129, 2305843009213554689, 2305843009213501441, 2305843009213489153, 2305843009213444097, 2305843009213317121, 2305843009213243393, 2305843009213173761}, P: []uint64{576460752303419393, 576460752303415297}, NTTFlag: true}, // natively N=256: the inverse NTT of an unreduced accumulator wraps only from 5 stages on
 }
 
 // VerifSetup_Ctx builds the objects of parameter set i natively (keys are allocated, not yet generated);
@@ -186,7 +192,6 @@ func vNoiseBound(c *vCtx, evkp EvaluationKeyParameters) int {
 	return 40
 }
 
-
 func VerifSetup_AutIndex(n int, nthRoot, galEl uint64) []uint64 {
 	idx, err := ring.AutomorphismNTTIndex(n, nthRoot, galEl)
 	if err != nil {
@@ -221,4 +226,3 @@ func vApplyAut(r *ring.Ring, p ring.Poly, galEl uint64, isNTT bool) ring.Poly {
 	}
 	return out
 }
-
